@@ -69,6 +69,7 @@ def main (args : List String) : IO UInt32 := do
   | ["monc14"] => loopStateless stdin stdout Driver.MonC14.step; stdout.flush; return 0
   | ["event"] => loopState stdin stdout Driver.MonC06.eventInit Driver.MonC06.stepEvent; stdout.flush; return 0
   | ["monc06"] => loopStateless stdin stdout Driver.MonC06.stepMon; stdout.flush; return 0
+  | ["durable"] => loopStateless stdin stdout Driver.MonC06.stepDurable; stdout.flush; return 0
   | ["monc20"] => loopStateless stdin stdout Driver.MonC20.step; stdout.flush; return 0
   | ["monc04"] => loopStateless stdin stdout Driver.MonC04.step; stdout.flush; return 0
   | ["engine"] => loopStateless stdin stdout Driver.Engine.step; stdout.flush; return 0
